@@ -26,6 +26,14 @@ func MakeUserFriendlyError(err error, duration time.Duration, errorContext strin
 		return nil
 	}
 
+	// A dial that timed out never reached the backend: it is a connection-level failure like a
+	// refused one, not a slow response. Keep the cause so the retry logic can fail over.
+	var dialErr *net.OpError
+	if errors.As(err, &dialErr) && dialErr.Op == "dial" && dialErr.Timeout() && !errors.Is(err, context.Canceled) {
+		return fmt.Errorf("connection timed out after %.1fs - cannot reach LLM backend at %s (check backend availability): %w",
+			duration.Seconds(), dialErr.Addr, err)
+	}
+
 	switch {
 	case errors.Is(err, context.Canceled):
 		// Common client timeout pattern (curl default, browser timeouts, etc.)
